@@ -49,7 +49,6 @@ package queue
 //@ ghost field Request.gWaiting bool                        // pushed on the heap and Enqueue has not returned yet
 //@ ghost field DelayedPriorityQueue.gRel gmap[int64]int64   // releases per window, indexed by the window's end time
 
-
 // container/heap (trusted): Pop returns the minimum under Less, Push inserts
 //@ extern heap.Pop
 //@   modifies allof(DelayedPriorityQueue.queue), now
